@@ -8,7 +8,12 @@
    value, or all zero when the descriptor has no init function); MU is `MU FAIL` for a message with a
    required field without default (the library refuses the empty input) and else always the __INIT value: an
    unpacked empty message is supposed to look like an initialised one, whichever way the library
-   initialises it. *)
+   initialises it.
+
+   After each block come the lookup lines ML MK / EL EK / SL (coq/GenModel/LookupModel.v: the library's
+   by-name and by-number searches run on the model's descriptors, with the keys desc_dump derives from
+   the descriptor) and, for services, SS SI SX (coq/GenModel/Service.v: the generated stubs, <svc>__init
+   and protobuf_c_service_destroy). *)
 open BinNums
 open Datatypes
 open Model_util
@@ -251,6 +256,36 @@ let state_line (prefix : string) (m : gmsg) (st : gfield_init list) : string =
 
 let name_key (o : str option) : string = match o with None -> "" | Some s -> string_of_str s
 
+(* ------------------------------------------------------------------ lookup keys (as desc_dump.c) *)
+
+let dedupe (l : 'a list) : 'a list =
+  List.rev (List.fold_left (fun acc x -> if List.mem x acc then acc else x :: acc) [] l)
+
+(* for every existing name n: n, n+"x", n without its last character, n with its last character +1 and
+   -1 (a C string: cut at a NUL); then "" and "~"; first occurrences only *)
+let name_keys (names : string list) : string list =
+  let of_name n =
+    let len = String.length n in
+    [n; n ^ "x"] @
+    (if len = 0 then [] else
+       let last d = c_strlen_cut (String.sub n 0 (len - 1) ^
+                                  String.make 1 (Char.chr ((Char.code n.[len - 1] + d) land 255))) in
+       [String.sub n 0 (len - 1); last 1; last (-1)]) in
+  dedupe (List.concat_map of_name names @ [""; "~"])
+
+(* for every existing number v: v, v+1, v-1; then the fixed keys; converted to the parameter type
+   (unsigned / int, 32 bits); first occurrences only *)
+let number_keys (as_unsigned : bool) (numbers : int list) : int list =
+  let conv x =
+    let u = x land 0xFFFFFFFF in
+    if as_unsigned || u < 0x80000000 then u else u - 0x100000000 in
+  dedupe (List.map conv (List.concat_map (fun v -> [v; v + 1; v - 1]) numbers
+                         @ [0; 1; -1; 2147483647; -2147483648; 536870911; 4294967295]))
+
+let index_out (o : nat option) : int = match o with Some n -> int_of_nat n | None -> -1
+let some_names (l : str option list) : string list =
+  List.filter_map (fun o -> match o with Some s -> Some (string_of_str s) | None -> None) l
+
 let () =
   let path = if Array.length Sys.argv > 1 then Sys.argv.(1) else "-" in
   let text =
@@ -261,6 +296,7 @@ let () =
   let files = parse_dump text in
   (* the harness compiles the generated code with -std=c99 / -std=c11: trigraphs are replaced *)
   let out = gen_all true files in
+  let svc_code = Service.gen_all_svc_code files in
   let buf = Buffer.create 65536 in
   let pr fmt = Printf.bprintf buf fmt in
   (* blocks sorted by name (NULL = ""), ties (CODE_SIZE) in the order of the C symbols *)
@@ -301,7 +337,12 @@ let () =
       (* protobuf_c_message_unpack of an empty input fails iff there is a required field whose
          descriptor has no default_value *)
       if List.exists (fun gf -> gf.gf_label = GRequired && gf.gf_default = None) m.gm_fields then pr "MU FAIL\n"
-      else pr "%s\n" (state_line "MU" m m.gm_init)) msgs;
+      else pr "%s\n" (state_line "MU" m m.gm_init);
+      List.iter (fun k -> pr "ML s:%s %d\n" (hex_of_string k)
+                    (index_out (LookupModel.msg_field_by_name m (str_of_bytes k))))
+        (name_keys (some_names (List.map (fun gf -> gf.gf_name) m.gm_fields)));
+      List.iter (fun k -> pr "MK %d %d\n" k (index_out (LookupModel.msg_field_by_number m (z_of_int k))))
+        (number_keys true (List.map (fun gf -> int_of_z gf.gf_id) m.gm_fields))) msgs;
   List.iter (fun e ->
       pr "ED %s %s %s %s %d %d %d\n" (put_str e.ge_name) (put_str e.ge_short_name) (put_str e.ge_c_name)
         (put_str e.ge_package_name) (List.length e.ge_values) (int_of_z e.ge_n_value_names)
@@ -311,12 +352,50 @@ let () =
       (match e.ge_values_by_name with
        | None -> pr "EN NULL\n"
        | Some l -> List.iter (fun (n, i) -> pr "EN %s %d\n" (put_str (Some n)) (int_of_z i)) l);
-      put_ranges "ER" e.ge_value_ranges) enums;
+      put_ranges "ER" e.ge_value_ranges;
+      List.iter (fun k -> pr "EL s:%s %d\n" (hex_of_string k)
+                    (index_out (LookupModel.enum_value_by_name e (str_of_bytes k))))
+        (name_keys (match e.ge_values_by_name with
+             | None -> []
+             | Some l -> List.map (fun (n, _) -> string_of_str n) l));
+      List.iter (fun k -> pr "EK %d %d\n" k (index_out (LookupModel.enum_value_by_number e (z_of_int k))))
+        (number_keys false (List.map (fun v -> int_of_z v.gev_value) e.ge_values))) enums;
   List.iter (fun s ->
       pr "SD %s %s %s %s %d\n" (put_str s.gs_name) (put_str s.gs_short_name) (put_str s.gs_c_name)
         (put_str s.gs_package) (List.length s.gs_methods);
       List.iteri (fun i mt ->
           pr "SM %d %s %s %s\n" i (put_str mt.gmt_name) (resolve msg_tbl mt.gmt_input)
             (resolve msg_tbl mt.gmt_output)) s.gs_methods;
-      put_indices "SN" s.gs_method_indices_by_name) svcs;
+      put_indices "SN" s.gs_method_indices_by_name;
+      List.iter (fun k -> pr "SL s:%s %d\n" (hex_of_string k)
+                    (index_out (LookupModel.svc_method_by_name s (str_of_bytes k))))
+        (name_keys (some_names (List.map (fun mt -> mt.gmt_name) s.gs_methods)));
+      (* the generated service code.  The harness installs, through <UC>__INIT(prefix), for every struct
+         member the handler that records the member's position in the struct, then calls the stubs in
+         the order of their definitions with three recognisable pointers. *)
+      (match List.find_opt (fun (c : Service.gsvc_code) -> c.Service.gsc_sym = s.gs_sym) svc_code with
+       | None -> ()
+       | Some c ->
+         let name = put_str s.gs_name in
+         let position n =
+           let rec go i = function [] -> -1 | x :: t -> if x = n then i else go (i + 1) t in
+           go 0 c.Service.gsc_handlers in
+         let handlers = List.map position c.Service.gsc_init_macro_args in
+         let sv : (int, int) Service.service_state = Service.macro_init c handlers in
+         List.iteri (fun i _ ->
+             if i < List.length c.Service.gsc_handlers then
+               match Service.call_stub c sv (nat_of_int i) (1000 + i) (2000 + i) (3000 + i) with
+               | Some hc ->
+                 pr "SS %s %d %d %d %d %d\n" name i hc.Service.hc_handler
+                   (if hc.Service.hc_input = 1000 + i then 1 else 0)
+                   (if hc.Service.hc_closure = 2000 + i then 1 else 0)
+                   (if hc.Service.hc_closure_data = 3000 + i then 1 else 0)
+               | None -> pr "SS %s %d -1 0 0 0\n" name i) c.Service.gsc_stubs;
+         let destroy_token = 77 in
+         let st : (int, int) Service.service_state = Service.generated_init c destroy_token in
+         pr "SI %s %d %d %d\n" name
+           (if st.Service.sv_descriptor = Some s.gs_sym && st.Service.sv_invoke_internal then 1 else 0)
+           (if st.Service.sv_destroy = Some destroy_token then 1 else 0)
+           (if Service.all_handlers_null st then 1 else 0);
+         pr "SX %s %d\n" name (if Service.service_destroy st = Some destroy_token then 1 else 0))) svcs;
   print_string (Buffer.contents buf)
